@@ -432,6 +432,92 @@ fn directed(dev: &Rules) -> Vec<(GraphSpec, Query, Rules)> {
     v
 }
 
+// ------------------------------------------------------------------ range-pair matrix
+
+/// Exhaustive directed matrix, run on every invocation: every ordered pair of two range
+/// comparisons on one property `p` — each of < <= > >= with the property on the left or the
+/// literal on the left (`20 > n.p`), first against LO then HI and first against HI then LO —
+/// with Int, Float and mixed bounds, directly over an unlabelled and a labelled node scan,
+/// below a one-hop expand and on the target of a one-hop expand, in GQL and Cypher. The graph
+/// holds values exactly at, just below and just above both bounds, as Int and as Float, plus a
+/// string, a stored null and a missing property. Judged like every other case (A_spec, A_dev);
+/// an unexplained cell is reported under its own cell signature (no shrinking needed).
+fn between_matrix(rep: &mut Report, dev: &Rules) {
+    use grafeo_common::types::Value;
+    let vals = ["9", "10", "11", "19", "20", "21", "9.5", "10.0", "10.5", "19.5", "20.0", "20.5", "'x'", "null", ""];
+    let mut nodes = Vec::new();
+    let mut edges = Vec::new();
+    let mut uid = 0;
+    for lab in ["P", ""] {
+        for v in vals {
+            uid += 1;
+            nodes.push(format!("{uid}/{lab}/{}", if v.is_empty() { String::new() } else { format!("p={v}") }));
+        }
+    }
+    let hub = uid + 1;
+    nodes.push(format!("{hub}//"));
+    for i in 1..=uid {
+        edges.push(format!("{}/{hub}>{i}/R/", 1000 + 2 * i));
+        edges.push(format!("{}/{i}>{hub}/R/", 1001 + 2 * i));
+    }
+    let g = parse_graph(&format!("{}|{}", nodes.join(";"), edges.join(";")));
+    let b = build(&g);
+    // the 8 spellings of one range comparison: (operator as written, literal on the left?)
+    let spellings: Vec<(CmpOp, bool)> = [CmpOp::Lt, CmpOp::Le, CmpOp::Gt, CmpOp::Ge].iter().flat_map(|o| [(*o, false), (*o, true)]).collect();
+    let bounds: [(&str, Value, Value); 3] = [
+        ("int", Value::Int64(10), Value::Int64(20)),
+        ("float", Value::Float64(10.0), Value::Float64(20.0)),
+        ("mixed", Value::Int64(10), Value::Float64(20.0)),
+    ];
+    // (name, hops, labelled scan, variable carrying the predicate)
+    let patterns: [(&str, usize, bool, usize); 4] = [("scan", 0, false, 0), ("label_scan", 0, true, 0), ("below_expand", 1, false, 0), ("after_expand", 1, false, 1)];
+    let atom = |v: usize, (op, lit_left): (CmpOp, bool), c: &Value| -> Pred {
+        let prop = Term::Prop(Var::N(v), "p".into());
+        if lit_left { Pred::Cmp(op, Term::Const(c.clone()), prop) } else { Pred::Cmp(op, prop, Term::Const(c.clone())) }
+    };
+    let name = |(op, lit_left): (CmpOp, bool), which: &str| -> String {
+        let o = render::cmp_text(op);
+        if lit_left { format!("{which}{o}p") } else { format!("p{o}{which}") }
+    };
+    for (bk, lo, hi) in &bounds {
+        for (pat, hops, labelled, var) in patterns {
+            for s1 in &spellings {
+                for s2 in &spellings {
+                    for lo_first in [true, false] {
+                        let (c1, c2, n1, n2) = if lo_first { (lo, hi, "LO", "HI") } else { (hi, lo, "HI", "LO") };
+                        let mut q = base_query(hops);
+                        if labelled {
+                            q.nodes[0].labels = vec!["P".into()];
+                        }
+                        q.pred = Some(Pred::And(Box::new(atom(var, *s1, c1)), Box::new(atom(var, *s2, c2))));
+                        q.ret = Ret::Plain { items: vec![Proj::Prop(Var::N(var), "uid".into())], distinct: false };
+                        q.fix_names();
+                        let cell = format!("{pat}|{} AND {}|{bk}", name(*s1, n1), name(*s2, n2));
+                        for lang in [Lang::Gql, Lang::Cypher] {
+                            let (v, text) = verdict(&b, &q, lang, dev);
+                            rep.eval();
+                            rep.nontrivial(hash_str(&format!("between|{cell}")));
+                            match v {
+                                Verdict::Agree => rep.count(&format!("between_matrix.agree.{}", lang.name()), 1),
+                                Verdict::Known(rules) => {
+                                    for r in rules {
+                                        rep.count(&format!("between_matrix.explained_by.{}", eval::rule_id(r)), 1);
+                                        rep.known_rule(eval::rule_id(r), &format!("cell {cell} {}: {text}", lang.name()));
+                                    }
+                                }
+                                Verdict::Mismatch(kind, detail) => {
+                                    rep.deviation(&format!("between|{}|{cell}|{kind}", lang.name()), json!({"query": text, "graph": "two nodes (one :P, one unlabelled) per value of p in 9,10,11,19,20,21,9.5,10.0,10.5,19.5,20.0,20.5,'x',null,missing; hub node linked to and from every node", "observed_vs_expected": detail}));
+                                }
+                                other => rep.count(&format!("between_matrix.not_judged.{}", format!("{other:?}").split('(').next().unwrap_or("x")), 1),
+                            }
+                        }
+                    }
+                }
+            }
+        }
+    }
+}
+
 // ------------------------------------------------------------------ driver
 
 fn case(seed: u64, i: u64, big: bool, dev: &Rules) -> CaseOut {
@@ -625,6 +711,7 @@ pub fn assumptions() -> Vec<String> {
         "projection of a missing property is null in every language (Gremlin values() on a missing key: the engine emits null, compared under that convention)".into(),
         "not generated because every front end rejects it with Err (re-checked by probes on each run): UNION ALL in Cypher / union() in Gremlin (GQL accepts the text but ignores the second branch: C11-F28), grouping by type()/labels()/id(), arithmetic in RETURN, ORDER BY a group key in an aggregating RETURN, ORDER BY id()/type()/labels(), Gremlin repeat()/select().by()".into(),
         "Gremlin subset: linear traversal, has()/hasNot()/hasLabel() per vertex (conjunctions of single-property tests), values()/id()/label() of the last vertex, dedup, one order().by(key), skip/limit, one ungrouped aggregate; GraphQL subset: root type = label, nested fields = outgoing typed edges, where-arguments (conjunctions), scalar property selections, orderBy/skip/first on the root".into(),
+        "directed range-pair matrix on every run (3072 cells): all ordered pairs of two range comparisons on one property in every spelling, Int/Float/mixed bounds, over a bare and a labelled node scan, below and after a one-hop expand, GQL and Cypher; values at, just below and just above both bounds".into(),
         "limits (DESIGN L): only the generated core — a single path pattern with 0-3 hops; no OPTIONAL MATCH, WITH chains, subqueries, list comprehensions, path functions; epoch-0 data only".into(),
     ]
 }
@@ -651,6 +738,7 @@ pub fn run(tier: Tier, seed: u64) -> ! {
         process(&g, &q, &rules, &mut out, "directed");
         merge(&mut rep, out);
     }
+    between_matrix(&mut rep, &dev);
     let n: u64 = std::env::var("C08_CASES").ok().and_then(|s| s.parse().ok()).unwrap_or(tier.pick(1500, 150_000));
     let nbig: u64 = tier.pick(24, 2000);
     let th = threads();
